@@ -280,9 +280,13 @@ def collection_case(ctx, index, rng: random.Random):
     k = rng.randint(1, 4)
     hs = []
     narrow_members = rng.random() < 0.15
+    with_missed = rng.random() < 0.4  # members that missed some values (and, half of them, with float contents from the start)
     for i in range(k):
-        data = gen.data_for_bins(rng, pairs, rng.randint(1, 30), outside=False)
-        hs.append(physt.h1(np.asarray(data), np.array(e), name=f"h{i}"))
+        data = gen.data_for_bins(rng, pairs, rng.randint(1, 30), outside=with_missed)
+        if with_missed:
+            data = list(data) + [e[0] - 1.0, e[-1] + 2.0, e[-1] + 3.0]
+        kw_ = {"weights": np.asarray([rng.randint(1, 8) / 4 for _ in data])} if with_missed and rng.random() < 0.5 else {}
+        hs.append(physt.h1(np.asarray(data), np.array(e), name=f"h{i}", **kw_))
         if narrow_members:
             # float16 members whose bins fit the type while their sum over the members does not
             with attach.quiet():
@@ -340,6 +344,12 @@ def collection_case(ctx, index, rng: random.Random):
             t0 = float(snap.arr_values(b["frequencies"]).astype(float).sum())
             if t0 > 0 and abs(float(x.total) - 1) > 1e-9:
                 rec.fail(monitor="C06.identities", op="normalize_all", symptom="member total is not 1 after normalize_all", diff=["total"], detail={"total": float(x.total)})
+            if not inplace and t0 > 0 and b.get("underflow") not in (None, "nan") and b.get("overflow") not in (None, "nan"):
+                # what a member missed is divided by the same number as its bins (the proportions stay)
+                wu, wo = float(b["underflow"]) / t0, float(b["overflow"]) / t0
+                if abs(float(x.underflow) - wu) > 1e-9 * (wu + 1) or abs(float(x.overflow) - wo) > 1e-9 * (wo + 1):
+                    rec.fail(monitor="C06.identities", op="normalize_all", symptom="under / overflow of a member were not divided by its total along with the bins", diff=["underflow", "overflow"],
+                             detail={"got": [float(x.underflow), float(x.overflow)], "expected": [wu, wo], "dtype_before": b["dtype"]})
         if not inplace:
             for x, b in zip(hs, before):
                 if snap.diff(b, snap.snapshot(x)):
@@ -390,6 +400,72 @@ def narrow_total_case(ctx, index, rng: random.Random):
         if not np.array_equal(np.asarray(h.frequencies), big):
             rec.fail(monitor="C06.identities", op="operand", symptom="operand modified", diff=["operand"], detail={})
     rec.case([dt, shape, big.ravel().tolist()], exact > top, cls=f"narrow_total/{dt}/{d}d")
+
+
+def overlapping_flows_case(ctx, index, rng: random.Random):
+    """The refusals of the statement hold in this flow of control whatever another one has switched on: while a second thread (or a second
+    asyncio task) is inside `enable_free_arithmetics()`, a negative factor / an array operand here is refused all the same."""
+    import asyncio
+    import threading
+
+    import physt
+    from physt.config import config
+
+    rec = ctx.rec
+    rec.mon("C06.scale.refusal")
+    h = physt.h1(np.array([0.5, 1.5, 1.6, 2.5]), np.array([0.0, 1.0, 2.0, 3.0]))
+    ops = {"mul_neg": lambda: h * -2, "rmul_neg": lambda: -2 * h, "div_neg": lambda: h / -2, "imul_neg": lambda: h.copy().__imul__(-2),
+           "mul_array": lambda: h * np.array([1.0, 2.0, 3.0]), "div_array": lambda: h / np.array([1.0, 2.0, 4.0])}
+    name = rng.choice(sorted(ops))
+    how = rng.choice(["thread", "task"])
+    accepted = []
+
+    def attempt():
+        try:
+            with warnings.catch_warnings():
+                warnings.simplefilter("ignore")
+                ops[name]()
+            accepted.append(name)
+        except (ValueError, TypeError):
+            pass
+
+    if how == "thread":
+        inside, done = threading.Event(), threading.Event()
+
+        def other():
+            with config.enable_free_arithmetics():
+                inside.set()
+                done.wait(5)
+
+        t = threading.Thread(target=other)
+        t.start()
+        inside.wait(5)
+        attempt()
+        done.set()
+        t.join(5)
+    else:
+        async def main():
+            inside, done = asyncio.Event(), asyncio.Event()
+
+            async def other():
+                with config.enable_free_arithmetics():
+                    inside.set()
+                    await done.wait()
+
+            task = asyncio.ensure_future(other())
+            await inside.wait()
+            attempt()
+            done.set()
+            await task
+
+        asyncio.run(main())
+    if accepted:
+        rec.fail(monitor="C06.scale.refusal", op=name, symptom="a negative factor / array operand was accepted because another flow of control had free arithmetics enabled", diff=["not_refused"],
+                 detail={"other_flow": how})
+    attempt()
+    if accepted:
+        rec.fail(monitor="C06.scale.refusal", op=name, symptom="a negative factor / array operand was accepted after another flow of control left its free-arithmetics block", diff=["not_refused"], detail={"other_flow": how})
+    rec.case(["flows", name, how], True, cls=f"overlapping_flows/{how}/{name}")
 
 
 def far_scale_case(ctx, index, rng: random.Random):
@@ -510,6 +586,7 @@ def far_scale_case(ctx, index, rng: random.Random):
 def run(ctx):
     attach_monitors()
     ctx.run_cases(ctx.scale(80, 500), far_scale_case, salt="far")
+    ctx.run_cases(ctx.scale(24, 120), overlapping_flows_case, salt="flows")
     ctx.run_cases(ctx.scale(40, 300), narrow_total_case, salt="narrow")
     ctx.run_cases(ctx.scale(500, 4000), one_case, salt="scale")
     ctx.run_cases(ctx.scale(100, 800), collection_case, salt="collection")
